@@ -24,7 +24,7 @@ RULE = ('attack-string synthesis at run time: for each of ~90 valid constructs (
         'truncation point x pumps (the last 1-8 characters before the cut + a dictionary of lexical atoms incl. hex-letter '
         'escapes, blanks, comments, list items, quotes) x terminators {nothing, "!", "|!", newline, wrong closing bracket}; '
         'every family is timed at <= 64 characters (rule i), the slowest and a random sample are doubled (rules ii, iii); '
-        'document side: every attribute operator/flag, class, :lang, range and text pseudo-class against pumped values.  '
+        'custom-selector tables of 7 reference shapes (chain, diamond, fan, ...) grown by levels; document side: every attribute operator/flag, class, :lang, range and text pseudo-class against pumped values.  '
         'Non-trivial = a family whose 64-character member takes the tokenizer past the pumped region (time above the '
         'unit median); distinct = distinct (prefix, pump, terminator) or (selector, value pump).')
 ASSUMPTIONS = [
@@ -75,7 +75,43 @@ def plan(tier, seed):
         units.append({'kind': 'sel', 'constructs': CONSTRUCTS[i:i + per], 'seed': seed * 1009 + i, 'tier': tier})
     for i in range(16 if tier == 'quick' else 48):
         units.append({'kind': 'doc', 'seed': seed * 1009 + 5000 + i, 'tier': tier, 'part': i, 'of': 16 if tier == 'quick' else 48})
+    for i in range(len(CUSTOM_SHAPES)):
+        units.append({'kind': 'custom', 'shape': i, 'seed': seed, 'tier': tier})
     return units
+
+
+def _lvl(names, refs):
+    return {n: ', '.join(refs) for n in names}
+
+
+def custom_map(shape, levels):
+    """A custom-selector table whose definitions refer to each other, `levels` deep; returns (map, pattern).  The text of the
+    table grows linearly with `levels`, so must the time to compile a pattern that uses its first entry."""
+    m = {}
+    for i in range(levels):
+        last = i == levels - 1
+        if shape == 'chain':
+            m[':--a%d' % i] = 'p' if last else ':--a%d' % (i + 1)
+        elif shape == 'twice':
+            m[':--a%d' % i] = 'p' if last else ':--a%d, :--a%d > b' % (i + 1, i + 1)
+        elif shape == 'diamond':
+            for x in 'ab':
+                m[':--%s%d' % (x, i)] = 'p' if last else ':--a%d, :--b%d' % (i + 1, i + 1)
+        elif shape == 'diamond-compound':
+            for x in 'ab':
+                m[':--%s%d' % (x, i)] = 'p' if last else 'div:--a%d:--b%d' % (i + 1, i + 1)
+        elif shape == 'fan3':
+            for x in 'abc':
+                m[':--%s%d' % (x, i)] = 'p' if last else ':is(:--a%d, :--b%d) :--c%d' % (i + 1, i + 1, i + 1)
+        elif shape == 'nested-pseudo':
+            for x in 'ab':
+                m[':--%s%d' % (x, i)] = 'p' if last else ':not(:--a%d):has(:--b%d)' % (i + 1, i + 1)
+        elif shape == 'skip':
+            m[':--a%d' % i] = 'p' if i >= levels - 2 else ':--a%d, :--a%d' % (i + 1, i + 2)
+    return m, ':--a0'
+
+
+CUSTOM_SHAPES = ['chain', 'twice', 'diamond', 'diamond-compound', 'fan3', 'nested-pseudo', 'skip']
 
 
 def timed(fn, budget):
@@ -118,14 +154,15 @@ def grow(measure, make, start, limit, label, viol, cn):
         inp = make(n)
         t = measure(inp, 20.0, 2)
         cn['growth_points'] = cn.get('growth_points', 0) + 1
+        size, shown = (len(inp), inp[:200]) if isinstance(inp, str) else (inp, label)
         if t is None:
-            viol.append({'what': 'rule (iii): %s exhausts the 20 s CPU budget at %d characters (previous point: %s)' % (
-                label, len(inp), ('%.4fs' % prev) if prev is not None else 'n/a'), 'selector': inp[:200], 'n': n, 'label': label,
+            viol.append({'what': 'rule (iii): %s exhausts the 20 s CPU budget at size %d (previous point: %s)' % (
+                label, size, ('%.4fs' % prev) if prev is not None else 'n/a'), 'selector': shown, 'n': n, 'label': label,
                 'class': sig('budget', label[:60])})
             return
         if prev is not None and prev >= 0.010 and t / prev > 32:
-            viol.append({'what': 'rule (ii): %s grows x%.1f for one doubling (%.4fs -> %.4fs at %d characters)' % (
-                label, t / prev, prev, t, len(inp)), 'selector': inp[:200], 'n': n, 'label': label,
+            viol.append({'what': 'rule (ii): %s grows x%.1f for one doubling (%.4fs -> %.4fs at size %d)' % (
+                label, t / prev, prev, t, size), 'selector': shown, 'n': n, 'label': label,
                 'class': sig('ratio', label[:60])})
             return
         prev = t
@@ -142,7 +179,35 @@ def run_unit(u):
     viol = res['viol']
     sigs = set()
     quick = u['tier'] == 'quick'
-    if u['kind'] == 'sel':
+    if u['kind'] == 'custom':
+        shape = CUSTOM_SHAPES[u['shape']]
+
+        def ccost(levels, budget, reps=1):
+            m, pat = custom_map(shape, levels)
+            best = None
+            for _ in range(reps):
+                sv.purge()
+                t = timed(lambda: sv.compile(pat, custom=m), budget)
+                if t is None:
+                    return None
+                best = t if best is None else min(best, t)
+            return best
+        # rule (i): a table of a few dozen characters
+        for lv in (2, 3, 4, 5, 6):
+            t = ccost(lv, 2.0)
+            res['evals'] += 1
+            cn['custom_tables_timed'] = cn.get('custom_tables_timed', 0) + 1
+            if t is None or t >= 2.0:
+                viol.append({'what': 'rule (i): compiling against a %d-level %s custom table needs >= 2 CPU-seconds' % (lv, shape),
+                             'selector': ':--a0', 'custom_shape': [shape, lv], 'class': sig('custom-short', shape)})
+                break
+            sigs.add(sig('custom', shape, lv))
+        label = 'compile(":--a0", custom=%s table of k levels)' % shape
+        grow(lambda lv, b, r: ccost(lv, b, r), lambda n: n, 6, 48 if quick else 96, label, viol, cn)
+        cn['custom_families_grown'] = cn.get('custom_families_grown', 0) + 1
+        for v in viol:
+            v.setdefault('custom_shape', [shape, v.get('n', 0)])
+    elif u['kind'] == 'sel':
         limit = 2048 if quick else 8192
         fams = []
         for c in u['constructs']:
@@ -291,10 +356,6 @@ def run_unit(u):
             label = '%s on %s value %s*k+%s' % (s, kind, ascii(pump), ascii(tail))
             grow(lambda n_, b, r: cost(kind, s, pump, tail, n_, b, r), lambda n: n, 128, limit, label, viol, cn)
             cn['doc_families_grown'] = cn.get('doc_families_grown', 0) + 1
-        # grow() passed n itself as "input": fix witness text
-        for v in viol:
-            if isinstance(v.get('selector'), int):
-                v['selector'] = v['label']
         if times:
             res['samples'].append({'slowest_doc_family': [times[0][1], times[0][2], ascii(times[0][3]), ascii(times[0][4])],
                                    'cpu_s': round(times[0][0], 6)})
@@ -315,14 +376,22 @@ def replay(w):
         if t is None or t >= 2.0:
             return dict(w, status_now='still >= 2 CPU-seconds')
         return None
+    if 'custom_shape' in w:
+        shape, lv = w['custom_shape']
+        m, pat = custom_map(shape, max(2, int(lv)))
+        sv.purge()
+        t = timed(lambda: sv.compile(pat, custom=m), 20.0)
+        m2, _ = custom_map(shape, max(2, int(lv) // 2))
+        sv.purge()
+        t2 = timed(lambda: sv.compile(pat, custom=m2), 20.0)
+        if t is None or (lv <= 6 and t >= 2.0) or (t2 is not None and t2 >= 0.010 and t / t2 > 32):
+            return dict(w, status_now='%s levels: %s s (half: %s s)' % (lv, t, t2))
+        return None
     if 'doc' in w or 'label' in w:
-        # re-run the unit that contains it is the simplest faithful replay for growth witnesses
         v = []
-        if 'doc' in w:
-            import bs4
-            kind, s, pump, tail = w['doc']
+        if 'doc' in w or w.get('label', '').find(' value ') > 0:
             r = run_unit({'kind': 'doc', 'seed': 0, 'tier': 'quick', 'part': 0, 'of': 1})
-            v = [x for x in r['viol'] if x.get('doc') == w['doc'] or x.get('label') == w.get('label')]
+            v = [x for x in r['viol'] if ('doc' in w and x.get('doc') == w['doc']) or x.get('label') == w.get('label')]
         else:
             inp = w['selector']
             t = compile_cost(sv, inp, 20.0)
@@ -336,6 +405,8 @@ def inconclusive(cn, tier):
     out = []
     if cn.get('families_at_64', 0) < (100000 if tier == 'quick' else 250000):
         out.append('too few selector families timed: %d' % cn.get('families_at_64', 0))
+    if cn.get('custom_families_grown', 0) < len(CUSTOM_SHAPES):
+        out.append('custom-table families: only %d' % cn.get('custom_families_grown', 0))
     if cn.get('doc_families_at_64', 0) < 1000:
         out.append('too few document-side families timed: %d' % cn.get('doc_families_at_64', 0))
     if cn.get('growth_points', 0) < 500:
